@@ -360,11 +360,22 @@ func runC15(c *Ctx) {
 		c.nestedAsync()
 		c.crossAsync()
 	}
+	// independent containers used concurrently (each goroutine its own): results as in a sequential run
+	c.M.Case("concurrent-independent")
+	for rep := 0; rep < c.N(6, 40); rep++ {
+		c.concurrentIndependent(8)
+	}
 	// concurrent readers
 	c.M.Case("concurrent-readers")
 	for i := 0; i < c.N(40, 400); i++ {
 		t := r.Container(&TreeOpts{MaxDepth: 3, MaxWidth: 5, Keys: r.SimpleKey}, "[{"[r.Intn(2)])
 		c.concurrentReaders(t, 2+r.Intn(7))
+	}
+	// long strings that need escaping, serialised by many goroutines at once
+	for i := 0; i < c.N(6, 40); i++ {
+		long := strings.Repeat("a\"b\\c\n", 20+i) + string(rune('A'+i))
+		t := &Tree{K: '[', Xs: []*Tree{tStr(long), obj1(long+"k", tStr("v\t"+long)), tStr("plain")}}
+		c.concurrentReaders(t, 8)
 	}
 }
 
@@ -466,4 +477,68 @@ func (c *Ctx) crossAsync() {
 	}
 	c.St.Eval("cross-async", true)
 	c.St.Count("async_cross")
+}
+
+// concurrentIndependent: k goroutines work on k different containers (parse, build, sort, reverse, serialise,
+// format, clone); every result must equal what the same work gives when done alone.
+func (c *Ctx) concurrentIndependent(k int) {
+	work := func(g int) string {
+		var sb strings.Builder
+		ints := make([]any, 0, 64)
+		for i := 0; i < 64; i++ {
+			ints = append(ints, (i*37+g*11)%101)
+		}
+		l := at.NewList(ints...)
+		l.Sort()
+		sb.WriteString(l.String())
+		l.Reverse()
+		sb.WriteString(strconv.Itoa(l.GetInt(0)))
+		strs := at.NewList("b\"x", "a\\y", strings.Repeat("q\n", 30+g), "c")
+		strs.Sort()
+		sb.WriteString(strs.String())
+		doc := "[1,\n2,\n{\"g\":" + strconv.Itoa(g) + ",\n\"l\":[ " + strings.Repeat("1,\n", 50+g) + " x]}]"
+		_, err := at.ParseList(doc)
+		if err != nil {
+			sb.WriteString(err.Error())
+		}
+		o, err := at.ParseObject("{\"a\":[1,2,{\"b\":\"" + strings.Repeat("z", g) + "\"}]}")
+		if err == nil {
+			sb.WriteString(o.FormatString(2))
+			sb.WriteString(strconv.Itoa(o.Clone().Count()))
+			sb.WriteString(fmt.Sprint(o.GetTF(".a#2.b")))
+		}
+		sb.WriteString(fmt.Sprint(l.Sum(), l.IntSum(), l.Max()))
+		return sb.String()
+	}
+	want := make([]string, k)
+	for g := 0; g < k; g++ {
+		want[g] = work(g)
+	}
+	got := make([]string, k)
+	var wg sync.WaitGroup
+	for g := 0; g < k; g++ {
+		wg.Add(1)
+		go func(g int) {
+			defer wg.Done()
+			defer func() {
+				if r := recover(); r != nil {
+					got[g] = "panic: " + fmt.Sprint(r)
+				}
+			}()
+			for rep := 0; rep < 20; rep++ {
+				got[g] = work(g)
+				if got[g] != want[g] {
+					return
+				}
+			}
+		}(g)
+	}
+	wg.Wait()
+	for g := range got {
+		if got[g] != want[g] {
+			c.M.Alarm("C15", fmt.Sprintf("goroutines working on DIFFERENT containers disturb each other (package-level state): goroutine %d got %.300q, alone it gets %.300q", g, got[g], want[g]))
+			break
+		}
+	}
+	c.St.Eval("concurrent-independent", true)
 }
